@@ -50,6 +50,27 @@ pub fn run(_ctx: &Ctx) -> Stats {
             st.sample(Json::obj().set("threads", Json::u(threads)).set("records", Json::u(records)).set("planted_bug", Json::Bool(buggy)).set("schedules", Json::Int(runs as i128)).set("distinct_orders", Json::u(orders.len())).set("bad_outputs", Json::Int(bad_seen as i128)));
         }
     }
+    // the O(n) minimiser reference must equal the brute force (it is the oracle of c09.widewindow)
+    {
+        use refmodel::gen::gen_seq_any;
+        use refmodel::model;
+        use refmodel::rng::Rng;
+        let mut differs = 0u64;
+        for i in 0..6000u64 {
+            let mut rng = Rng::keyed(1, "selfcheck.minfast", i);
+            let m = rng.usize(1, 12);
+            let w = m + rng.usize(0, 40);
+            let len = rng.usize(0, w + 90);
+            let (_, seq) = gen_seq_any(&mut rng, len, false);
+            st.case(true, refmodel::rng::hash_bytes(&seq) ^ (w * 64 + m) as u64);
+            if model::minimiser_runs(&seq, w, m) != model::minimiser_runs_fast(&seq, w, m) {
+                differs += 1;
+            }
+        }
+        if differs > 0 {
+            st.violate("HARNESS.selfcheck.minimiser_models_disagree", format!("brute-force and O(n) minimiser references differ on {} of 6000 cases", differs), Json::Null);
+        }
+    }
     // JSON round trip
     let j = Json::obj().set("a", Json::Arr(vec![Json::Int(1), Json::Num(0.5), Json::s("x\"y\\z\n\u{1F9EC}")])).set("b", Json::Bool(true)).set("c", Json::Null);
     match Json::parse(&j.to_string()) {
